@@ -322,7 +322,9 @@ fn digest(args: &[String]) -> anyhow::Result<()> {
         w.put(&o);
     }
     let n = w.finish();
-    emit(&json!({"kind": "digest", "lines": n, "threads": plonky2_maybe_rayon::rayon::current_num_threads(),
+    // which order does this build's hashbrown iterate in? (the alternate CONST_RANDOM_SEED flavour must differ)
+    let probe: Vec<u64> = (0..24u64).collect::<hashbrown::HashSet<u64>>().into_iter().collect();
+    emit(&json!({"kind": "digest", "lines": n, "hash_iteration_probe": probe, "threads": plonky2_maybe_rayon::rayon::current_num_threads(),
                  "avx2": cfg!(target_feature = "avx2"), "avx512": cfg!(target_feature = "avx512f"),
                  "debug_assertions": cfg!(debug_assertions)}));
     Ok(())
